@@ -9,6 +9,11 @@ use astrolabe::{OffsetUtilities, Time};
 use serde_json::{json, Value};
 
 fn case_op(nanos: u64, off: i32, op: &TmOp, acc: &mut Acc) {
+    case_op_d(nanos, off, op, true, acc)
+}
+
+/// `display`: also compare rendered fields on a 1/16 lattice of the cases (not on the complete count axis)
+fn case_op_d(nanos: u64, off: i32, op: &TmOp, display: bool, acc: &mut Acc) {
     let t = time_from(nanos, off).unwrap();
     acc.transitions += 1;
     acc.states += 1;
@@ -17,7 +22,7 @@ fn case_op(nanos: u64, off: i32, op: &TmOp, acc: &mut Acc) {
     if exp.0 != nanos {
         acc.nontrivial += 1;
     }
-    if let Some(d) = crate::machine::tm_judge_opt(&got, exp, (nanos / 1_000_000_000 + exp.0) % 16 == 0) {
+    if let Some(d) = crate::machine::tm_judge_opt(&got, exp, display && (nanos / 1_000_000_000 + exp.0) % 16 == 0) {
         let class = match (&got, op) {
             (Out::Panic(_), _) => "panic",
             (Out::Val(v), _) if v.as_nanos() >= ab::DAY_NS => "not-below-one-day",
@@ -126,7 +131,7 @@ pub fn run(ctx: &Ctx) -> i32 {
         rep.sweep("unit-ops:all-2^32-counts x 12 ops x 3 times", (1u64 << 32) * 36, "complete count axis", |i, acc| {
             let n = (i / 36) as u32;
             let k = i % 36;
-            case_op(bases[(k / 12) as usize], 0, &TmOp::Unit((k % 12) as usize, n), acc);
+            case_op_d(bases[(k / 12) as usize], 0, &TmOp::Unit((k % 12) as usize, n), false, acc);
         });
     } else {
         let step: u64 = if ctx.thorough { 257 } else { 65_537 };
